@@ -233,18 +233,20 @@ def expected_backend(g, T, QT="CoolProp.QT_INPUTS"):
     return {Num.atom(f"CP.{rd}@('{QT}', '{q}', '{T}')") * Num.const(scale)}
 
 
-def r_getters(ctx: Ctx, model):
-    ctx.rule("G-getter: outcome table of every Adsorbate property getter over calculate x backend x stored property x unit")
+def r_getters(ctx: Ctx, model, prop="C20", rule="G-getter", only=None):
+    ctx.rule(f"{rule}: outcome table of every Adsorbate property getter over calculate (True / False / omitted = default) x backend x stored property x unit")
     ci = model.cls("pygaps.core.adsorbate.Adsorbate")
     n = 0
     for backend_ok in (True, False):
         I = make_interp(model, backend_ok=backend_ok)
         t = Tables(I)
         for g, (rd, q, scale, fprop, fscale) in GETTERS.items():
+            if only is not None and g not in only:
+                continue
             m = ci.find_method(g)
             if m is None:
                 raise AnalysisError(f"anchor missing: Adsorbate.{g}")
-            for calculate in (True, False):
+            for calculate in (True, False, "default"):
                 for has_prop in (True, False, "others"):
                     units = [None, "bar", "Pa"] if g in ("saturation_pressure", "pressure_saturation") else [None]
                     for unit in units:
@@ -261,7 +263,7 @@ def r_getters(ctx: Ctx, model):
                             ads = Obj(cls=ci, label="adsorbate", attrs={"name": "ADS", "alias": ["ads"], "properties": props,
                                                                         "_state": None, "_backend_mode": None})
                             fv = I.getattr_(ads, g, None)
-                            kw = {"calculate": calculate}
+                            kw = {} if calculate == "default" else {"calculate": calculate}     # omitted: the documented default is to calculate
                             if unit is not None:
                                 kw["unit"] = unit
                             args = [] if g in NO_TEMP else [Num.atom("T")]
@@ -286,13 +288,14 @@ def r_getters(ctx: Ctx, model):
                                 ok = oc.kind == "raise" and oc.exc.is_a("CalculationError") and not oc.exc.fault
                                 wdesc = "CalculationError"
                             got = I.describe(oc.value) if oc.kind == "ok" else f"raises {oc.exc.name}"
-                            ctx.ob(ok, Finding("C20.G-getter", m.where, f"Adsorbate.{g}|{case}",
+                            ctx.ob(ok, Finding(f"{prop}.{rule}", m.where, f"Adsorbate.{g}|{case}",
                                                f"Adsorbate.{g}({case}): {got}; required {wdesc}",
                                                {"derived": got, "required": wdesc}),
                                    nontrivial_key=("getter", g, case),
                                    sample={"rule": "G-getter", "getter": g, "case": case, "derived": got} if n % 9 == 0 else None)
-    ctx.floor("getter cases interpreted", n, 100)
-    r_getter_history(ctx, model)
+    ctx.floor("getter cases interpreted", n, 100 if only is None else 10)
+    if only is None:
+        r_getter_history(ctx, model)
 
 
 def r_getter_history(ctx: Ctx, model, prop="C20", rule="G-getter"):
